@@ -32,7 +32,7 @@ ASSUMPTIONS = list(refcodec.TRUSTED_BASE) + [
     "CVAL truncation is not applied to MetaModules (the stored value of an unlisted user controller has no documented default)",
 ]
 REQUIRED_LABELS = {
-    "quick": ["encoded_project", "encoded_synth", "unknown_chunk", "dropped_optional", "truncated_cvals", "interior_gap", "old_version", "header_permuted", "fixture", "fixture_unknown", "fixture_dropped", "fixture_truncated"],
+    "quick": ["encoded_project", "encoded_synth", "unknown_chunk", "dropped_optional", "truncated_cvals", "interior_gap", "old_version", "header_permuted", "fixture", "fixture_unknown", "fixture_dropped", "fixture_truncated", "nested_container_of_other_version_era"],
     "thorough": ["encoded_project", "encoded_synth", "unknown_chunk", "dropped_optional", "truncated_cvals", "interior_gap", "old_version", "header_permuted", "fixture", "fixture_unknown", "fixture_dropped", "fixture_truncated", "fixture_all_positions"],
 }
 UNKNOWN_ALPHABET = "QXZJ0123456789"
@@ -91,7 +91,22 @@ def encoded_case(draw):
         "options_pad64": draw(st.booleans()),
         "chnk_slack": draw(st.sampled_from([0, 0, 1, 200])),
         "write_slnk_always": draw(st.booleans()),
+        # nested containers (embedded projects, effects) may come from another SunVox version than the file around them
+        "inner_vers": draw(st.sampled_from([None, None, [2, 1, 2, 1], [1, 9, 4, 0], [1, 9, 5, 0], [1, 7, 0, 0]])),
     }
+    if draw(st.integers(0, 4)) == 0:
+        # version eras meet: a container of one era nested in a file of the other, with wide (16-bit)
+        # module columns in the patterns of both
+        wide = lambda: [draw(st.sampled_from([0, 1, 49])), draw(st.integers(0, 129)), draw(st.sampled_from([0x0100, 0x0123, 0xFFFF, 0x01FF])), 0, 0]  # noqa: E731
+        ms = draw(build.module_spec(in_project=True, depth=1, tname="MetaModule"))
+        ms["payload"]["project"]["patterns"].append({"kind": "pattern", "tracks": 2, "lines": 2, "fields": {}, "cells": [[0, 0, wide()], [1, 1, wide()]]})
+        if src["kind"] == "project":
+            src["spec"]["modules"].append(ms)
+            src["spec"]["patterns"].append({"kind": "pattern", "tracks": 1, "lines": 2, "fields": {}, "cells": [[1, 0, wide()]]})
+        else:
+            src["spec"] = dict(ms)
+        old, new = draw(st.sampled_from([[1, 9, 4, 0], [1, 7, 0, 0], [1, 9, 4, 255]])), draw(st.sampled_from([[1, 9, 5, 0], [2, 1, 2, 1]]))
+        var["vers"], var["inner_vers"] = (old, new) if draw(st.booleans()) else (new, old)
     src["var"] = var
     src["unknown"] = draw(st.lists(unknown_chunk, max_size=4))
     return src
@@ -147,7 +162,7 @@ def expected_after(desc, var, kind):
                 p["timeline_position"] = 0
             if "REPS" in drop:
                 p["restart_position"] = 0
-        if tuple(var["vers"]) < (1, 9, 5, 0):
+        if tuple((var.get("inner_vers") or var["vers"]) if inner else var["vers"]) < (1, 9, 5, 0):
             for pt in p["patterns"]:
                 if pt and pt["kind"] == "pattern":
                     for line in pt["data"]:
@@ -213,6 +228,9 @@ def run_encoded(ctx, case):
         labels.add("interior_gap")
     if tuple(case["var"]["vers"]) < (1, 9, 5, 0):
         labels.add("old_version")
+    iv = case["var"].get("inner_vers")
+    if iv and (tuple(iv) < (1, 9, 5, 0)) != (tuple(case["var"]["vers"]) < (1, 9, 5, 0)):
+        labels.add("nested_container_of_other_version_era")
     if case["var"]["header_perm"]:
         labels.add("header_permuted")
     return labels
